@@ -96,7 +96,13 @@ def make_source(types, decl):
 
 class Adapter(object):
   def __init__(self, types=("A", "B"), hook="none", prios="std", decl="class",
-               owners=("o1", "o2", "o3")):
+               owners=("o1", "o2", "o3"), arbiter=None):
+    # arbiter: trace cfg; set in recorded replay files so that `./check C05
+    # --replay FILE` decides a run that leaves the recorded behaviour the way
+    # the check does (TLC validates the run as observed) instead of by equality
+    self.arbiter = arbiter
+    self.log = []
+    self.skip = False
     self.types = sorted(types)
     self.prio = PRIOS[prios]
     self.hookname = hook
@@ -133,6 +139,13 @@ class Adapter(object):
   def step(self, a, args):
     if self.aborting:
       raise Machinery("adapter already closed")
+    if self.skip:
+      return {}
+    r = self._step(a, args)
+    self.log.append(dict(a=a, args=args or {}, obs=r, wf=True))
+    return r
+
+  def _step(self, a, args):
     self.cmd = (a, args or {})
     self.sem_cmd.release()
     if not self.sem_reply.acquire(timeout=60):
@@ -151,6 +164,19 @@ class Adapter(object):
     self.owners.clear()
 
   def normalize(self, obs, exp):
+    if self.skip:
+      return exp
+    if self.arbiter and obs != exp and isinstance(obs, dict) and "EXC" not in obs \
+       and isinstance(exp, dict) and set(obs) == set(O0()):
+      from engine import tracecheck
+      r, rej = tracecheck.validate("revent", "TraceRevent", self.arbiter,
+                                   [self.log], tag="C05")
+      if not rej:
+        # the run as observed is a behaviour of the spec: it merely took
+        # another permitted branch; the rest of the recorded behaviour does
+        # not apply to it
+        self.skip = True
+        return exp
     return obs
 
   def signature(self, st, obs):
